@@ -132,6 +132,9 @@ def extra_stage(v, tier, rng, impl):
         lay = docgen.Layout(mode=rng.choice(['canonical', 'random']), comments=rng.choice([None, 'block-level']))
         text, _ = docgen.render(node, _random.Random(rng.randrange(1 << 30)), lay, sp)
         texts.append(text)
+    # the witness of the known finding: an IF_DATA in front of the A2ML block, in a MODULE that sorts behind the block's MODULE
+    texts.append('ASAP2_VERSION 1 71 /begin PROJECT p "" /begin MODULE zz "" /begin IF_DATA XCP 1 /end IF_DATA /end MODULE /begin MODULE aa "" '
+                 '/begin A2ML block "IF_DATA" taggedunion if_data { "XCP" struct { uint; }; }; /end A2ML /end MODULE /end PROJECT')
     out = fw.run_sharded([impl, 'SORTDOC'], [sx.enc([t]) for t in texts])
     fails, multi, judged = [], 0, 0
     for t, line in zip(texts, out):
@@ -176,12 +179,39 @@ def extra_stage(v, tier, rng, impl):
                            % (mem, [n.decode('utf-8', 'replace') for n in names]))
                 if not why and not a[4]:
                     why = 'sorting a second time changes something'
-        if why and len(fails) < 3:
+        if why and why.startswith('loading the sorted file gives a different model') and a2ml_moves_in_front_of_ifdata(t, names):
+            if not any(f.get('known_key') for f in fails):
+                fails.append({'known_key': 'a2ml-block-sorted-in-front-of-if-data',
+                              'payload': {'kind': 'SORTDOC', 'case': sx.enc([t]), 'text': t, 'why': why, 'stage': 'W (documents: load, sort, write, reload)'}})
+            continue
+        if why and len([f for f in fails if not f.get('known_key')]) < 3:
             fails.append({'payload': {'kind': 'SORTDOC', 'case': sx.enc([t]), 'text': t, 'why': why,
                                       'stage': 'W (documents: load, sort, write, reload)'}})
     v.coverage['sorted_documents'] = judged
     v.coverage['sorted_documents_with_several_modules'] = multi
     return fails
+
+
+def a2ml_moves_in_front_of_ifdata(text, written_names):
+    """IF_DATA is interpreted with the A2ML block that stands in front of it in the FILE.  If the input has an IF_DATA in front of its
+    first A2ML block and sort() moves the MODULE with the A2ML block in front of the MODULE with that IF_DATA, the reloaded file
+    interprets the IF_DATA (the loaded one had kept it uninterpreted)."""
+    import re
+    ia, ii = text.find('/begin A2ML'), text.find('/begin IF_DATA')
+    if ia < 0 or ii < 0 or ii > ia:
+        return False
+    mods = [(m.start(), m.group(1)) for m in re.finditer(r'/begin\s+MODULE\s+(\S+)', text)]
+    def module_of(pos):
+        cur = None
+        for st, nm in mods:
+            if st <= pos:
+                cur = nm
+        return cur
+    ma, mi = module_of(ia), module_of(ii)
+    if ma is None or mi is None or ma == mi:
+        return False
+    order = [n.decode('utf-8', 'replace') if isinstance(n, bytes) else n for n in written_names]
+    return ma in order and mi in order and order.index(ma) < order.index(mi)
 
 
 def replay(r):
